@@ -417,6 +417,7 @@ static void run_subprocess(char **argv) {
 
   if (pid == 0) {
     // Child process. Run a new command.
+    signal(SIGPIPE, SIG_DFL);
     execvp(argv[0], argv);
     fprintf(stderr, "exec failed: %s: %s\n", argv[0], strerror(errno));
     _exit(1);
@@ -727,6 +728,11 @@ int main(int argc, char **argv) {
 
   init_macros();
   parse_args(argc, argv);
+
+  // The driver must survive writing a diagnostic to a pipe nobody reads
+  // (`cc ... 2>&1 | head`): dying of SIGPIPE would skip cleanup().
+  if (!opt_cc1)
+    signal(SIGPIPE, SIG_IGN);
 
   if (opt_cc1) {
     add_default_include_paths(argv[0]);
